@@ -179,6 +179,48 @@ theorem loop_rand (t : Nat) (n : Nat) (env : Env) :
         · rw [if_pos h3, if_pos (by omega)]
         · rw [if_neg h3, if_neg (by omega)]
 
+/-! ## Element-wise loops: the iteration order is irrelevant (what an OpenMP `parallel do` relies on) -/
+
+/-- Executing `f_t(df) = e` once for each DoF of a duplicate-free list, in *any* order, sets exactly those
+DoFs to `e` evaluated on the initial values. -/
+theorem foldl_fassign (t : Nat) (e : Expr) (l : List Nat) (hl : l.Nodup) (env : Env) :
+    l.foldl (fun en df => exec (.fassign t e) df en) env
+      = { env with fld := fun i d => if i = t ∧ d ∈ l then eval env d e else env.fld i d } := by
+  induction l generalizing env with
+  | nil => apply Env.ext' <;> intros <;> simp
+  | cons a l ih =>
+      have hnd := List.nodup_cons.mp hl
+      rw [List.foldl_cons, ih hnd.2]
+      apply Env.ext' <;> intros <;> simp only [exec, setFld]
+      rename_i i d
+      by_cases h1 : i = t ∧ d ∈ l
+      · have hda : d ≠ a := fun h => hnd.1 (h ▸ h1.2)
+        rw [if_pos h1, if_pos ⟨h1.1, List.mem_cons_of_mem _ h1.2⟩]
+        apply eval_congr
+        · intro j
+          have : ¬ (j = t ∧ d = a) := fun h => hda h.2
+          simp only [this, if_false]
+        · intro j; rfl
+        · intro k; rfl
+      · rw [if_neg h1]
+        by_cases h2 : i = t ∧ d = a
+        · obtain ⟨rfl, rfl⟩ := h2
+          rw [if_pos ⟨rfl, rfl⟩, if_pos ⟨rfl, List.mem_cons_self⟩]
+        · rw [if_neg h2]
+          have : ¬ (i = t ∧ d ∈ a :: l) := by
+            intro h
+            rcases List.mem_cons.mp h.2 with h3 | h3
+            · exact h2 ⟨h.1, h3⟩
+            · exact h1 ⟨h.1, h3⟩
+          rw [if_neg this]
+
+theorem loop_fassign_any_order (t : Nat) (e : Expr) (n : Nat) (l : List Nat) (hp : l.Perm (visits 1 n))
+    (env : Env) :
+    l.foldl (fun en df => exec (.fassign t e) df en) env = loopN (.fassign t e) 1 n env := by
+  have hnd : (visits 1 n).Nodup := by rw [visits_eq_range']; exact List.nodup_range'
+  rw [loopN_eq_foldl, foldl_fassign t e l (hp.nodup_iff.mpr hnd), foldl_fassign t e _ hnd]
+  apply Env.ext' <;> intros <;> simp only [hp.mem_iff]
+
 /-! ## Reductions: the accumulation loop is the sum over the DoFs visited -/
 
 theorem sumOver_dofs_succ (f : Nat → Rat) (n : Nat) :
